@@ -63,11 +63,12 @@ def patch_exts(exts, off, data):
 
 def limits_for(c, boxes):
     L = {0, 2**30, U64, c["max"]}
-    for b in boxes:
-        if b["type"] == b"moov":
-            s = b["size"] - b["hl"]
-            L.update({max(0, s - 1), s, s + 1})
-    return sorted(L)
+    sizes = [b["size"] - b["hl"] for b in boxes if b["type"] == b"moov"]
+    for s in sizes:
+        L.update({max(0, s - 1), s, s + 1})
+    # never ask the implementation to allocate more than 1 GiB for a moov payload (an allocation failure aborts the
+    # harness process): drop the limits that would admit a moov payload above 2^30
+    return sorted(m for m in L if m == c["max"] or not any(2**30 < s <= m for s in sizes))
 
 
 def cums_for(c, boxes_none):
